@@ -43,7 +43,6 @@ theorem needsQuote_exact : ∀ d, needsQuote d = some (decide (HasMarkerLine d))
 
 example : HasMarkerLine (lit "a\n-- x --") := by decide +kernel
 example : needsQuote (lit "a\n-- x --") = some true := by decide +kernel
-example : needsQuote (lit "-- x --\r") = some true := by decide +kernel
 example : needsQuote (lit "a\n --x --\n") = some false := by decide +kernel
 
 /-- Operational reading: `NeedsQuote d` is false exactly when storing `d` as a file body parses
@@ -61,6 +60,7 @@ theorem needsQuote_false_iff_body_safe_name : ∀ d n, NameOK n → (needsQuote 
   intro d n hn
   rw [needsQuote_false_iff, parse_format_single hn]
 
+example : needsQuote (lit "-- x --\r") = some true := by decide +kernel
 example : parse (format ⟨[], [⟨lit "f", lit "a\n-- x --"⟩]⟩)
     = some ⟨[], [⟨lit "f", lit "a\n"⟩, ⟨lit "x", []⟩]⟩ := by decide +kernel
 
